@@ -153,6 +153,29 @@ def interpretOffset (date : IsoDate) (time : Option IsoTime) (isExact : Bool) (o
       else tz.epochNsFor ⟨date, time⟩ d
     | none, none => tz.epochNsFor ⟨date, time⟩ d
 
+/-- `interpret_isodatetime_offset(.., match_minutes = false, ..)` with a time record: the route of a record of fields
+    (`ZonedDateTime::from_partial`), whose offset is matched exactly. Tied by correspondence (`tz_partial`). -/
+def interpretOffsetExact (date : IsoDate) (time : IsoTime) (offsetNs : Option Int) (tz : TZ)
+    (d : Disamb) (oo : OffsetOpt) : Out Int :=
+  let exact : Option Int := if oo = .use then offsetNs else none
+  match exact, offsetNs with
+  | some off, _ => do
+    let b := IsoDateTime.balance date.year date.month date.day time.hour time.minute time.second time.millisecond
+      time.microsecond (time.nanosecond - off)
+    TZ.validDayRange b.date
+    b.asNanoseconds
+  | none, some off =>
+    if oo = .prefer ∨ oo = .reject then do
+      TZ.validDayRange date
+      let iso : IsoDateTime := ⟨date, time⟩
+      let utc ← iso.asNanoseconds
+      let possible ← tz.possibleFor iso
+      match possible.find? (fun c => utc - c = off) with
+      | some c => pure c
+      | none => if oo = .reject then .err .range else tz.disambiguate possible iso d
+    else tz.epochNsFor ⟨date, time⟩ d
+  | none, none => tz.epochNsFor ⟨date, time⟩ d
+
 /-! ### ZonedDateTime operations (C14) -/
 
 /-- `Instant::add_to_instant(time_duration)` -/
